@@ -653,9 +653,29 @@ pub fn psbt_padded(kinds: &[InK], rich: bool, pad: usize) -> Psbt {
     psbt
 }
 
+/// a PSBT that another signer has already worked on: the last input is finalized (scriptSig and
+/// witness of a wrapped-segwit spend), the first carries a partial signature, a sighash type and a
+/// redeem script, an output carries a redeem script
+fn psbt_cosigned(kinds: &[InK]) -> Psbt {
+    let mut p = psbt_with(kinds, false);
+    let secp = lightning_signer::bitcoin::secp256k1::Secp256k1::new();
+    let key = lightning_signer::bitcoin::secp256k1::SecretKey::from_slice(&[0x3c; 32]).unwrap();
+    let pk = lightning_signer::bitcoin::PublicKey::new(lightning_signer::bitcoin::secp256k1::PublicKey::from_secret_key(&secp, &key));
+    let msg = lightning_signer::bitcoin::secp256k1::Message::from_digest([0x11; 32]);
+    let sig = lightning_signer::bitcoin::ecdsa::Signature::sighash_all(secp.sign_ecdsa(&msg, &key));
+    let last = p.inputs.len() - 1;
+    p.inputs[last].final_script_sig = Some(ScriptBuf::from_bytes(vec![0x16, 0x00, 0x14, 1, 2, 3, 4, 5, 6, 7, 8, 9, 10, 11, 12, 13, 14, 15, 16, 17, 18, 19, 20]));
+    p.inputs[last].final_script_witness = Some(Witness::from_slice(&[sig.to_vec(), pk.to_bytes()]));
+    p.inputs[0].partial_sigs.insert(pk, sig);
+    p.inputs[0].sighash_type = Some(lightning_signer::bitcoin::psbt::PsbtSighashType::from_u32(1));
+    p.inputs[0].redeem_script = Some(ScriptBuf::from_bytes(vec![0x00, 0x14, 9, 9, 9, 9, 9, 9, 9, 9, 9, 9, 9, 9, 9, 9, 9, 9, 9, 9, 9, 9]));
+    p.outputs[0].redeem_script = Some(ScriptBuf::from_bytes(vec![0x51]));
+    p
+}
+
 impl Alph for WithSize<PsbtWrapper> {
     fn n() -> usize {
-        6
+        7
     }
     fn pick(i: usize, pos: usize) -> Self {
         let _ = pos;
@@ -666,6 +686,7 @@ impl Alph for WithSize<PsbtWrapper> {
             3 => psbt_with(&[InK::WutxoOnly, InK::NwuSegwitAndWutxo], true),
             // larger than 64 KiB
             4 => psbt_padded(&[InK::NwuSegwit], false, BIG_PAD),
+            5 => psbt_cosigned(&[InK::WutxoOnly, InK::NwuLegacy]),
             // an unknown key-value pair that fills the message up to the maximum size
             _ => psbt_filled(&[InK::WutxoOnly]),
         };
@@ -708,13 +729,21 @@ fn streamed_big() -> (Vec<InK>, bool) {
     (vec![InK::NwuSegwit, InK::WutxoOnly], false)
 }
 
+/// streamed PSBTs that a co-signer has already worked on
+fn streamed_cosigned() -> Vec<Vec<InK>> {
+    vec![vec![InK::WutxoOnly], vec![InK::NwuSegwit, InK::NwuLegacy], vec![InK::NwuLegacy, InK::WutxoOnly]]
+}
+
 impl Alph for WithSize<StreamedPSBT> {
     fn n() -> usize {
-        streamed_variants().len() + 2
+        streamed_variants().len() + 2 + streamed_cosigned().len()
     }
     fn pick(i: usize, pos: usize) -> Self {
         let _ = pos;
         let vs = streamed_variants();
+        if i >= vs.len() + 2 {
+            return WithSize(StreamedPSBT::new(psbt_cosigned(&streamed_cosigned()[i - vs.len() - 2])));
+        }
         if i == vs.len() + 1 {
             return WithSize(StreamedPSBT::new(psbt_filled(&[InK::WutxoOnly, InK::NwuSegwit])));
         }
